@@ -314,6 +314,11 @@ def zd_view(d):
     """Abstract (content, pos) of a decompresser in either mode."""
     cs = d.f['_compressed_stream']
     dz = d.f['_decompressor']
+    if not getattr(dz, 'bound', False) and isinstance(dz.inp, bytes) and dz.inp == b'':
+        # a decompression object that has consumed nothing yet: its ghost "stream being fed" is the compressed stream
+        # it is about to be fed from (ghost assignment, no run-time counterpart)
+        dz.Z = cs.content
+        dz.bound = True
     D = EM.dec(True, cs.content)
     if d.f['_use_uncompressed_stream'] is True:
         lv = lls_view(d.f['_lazy_uncompressed_stream'])
@@ -373,9 +378,11 @@ def mk_zd(vc, I, mode=None, with_lazy=None):
     vc.world = EM.World(vc)
     Z = SBytes.fresh('Zstream')
     vc.assume(EM.zvalid(Z))
+    vc.assume(Z.length() > 0)          # E-ZLIB: a complete zlib stream is never empty (header + checksum)
     cs = EM.AbsStream(Z, 0, name='compressed_stream')
     dz = EM.DecompObj(I)
     dz.Z = Z
+    dz.bound = True
     if mode is None:
         mode = 'cu'[vc.choose(2, label='mode')]
     if with_lazy is None:
@@ -417,7 +424,21 @@ def read_expected(o, size):
     if size is None:
         return o.content.slice(o.pos, None)
     s = SInt.of(size)
+    from pyvc.values import _prove
+    if _prove((s >= 0).t):
+        return o.content.slice(o.pos, o.pos + s)
     return ite(s < 0, o.content.slice(o.pos, None), o.content.slice(o.pos, o.pos + s))
+
+
+def read_expected_cases(vc, o, size):
+    """read_expected with the clamping of a sized read resolved by a case split (both cases are plain extractions)."""
+    from pyvc.values import _prove
+    if size is not None and _prove((SInt.of(size) >= 0).t):
+        n, ln = SInt.of(size), o.content.length()
+        if vc.branch(o.pos + n <= ln, label='spec:read_within'):
+            return o.content.slice(o.pos, o.pos + n)
+        return o.content.slice(o.pos, ln)
+    return read_expected(o, size)
 
 
 def _loop_read_all(vc, L):
@@ -450,6 +471,7 @@ def _havoc_fill(vc, L):
 
 class ZdReadCompressed(ZdBase):
     fn = 'utils:ZlibLikeBaseStreamDecompresser._read_compressed'
+    props = ('C07', 'C01', 'C18')
     allowed_exc = ()          # for a valid stream no exception may escape (no_spurious_error, F7)
     loops = {
         0: Loop(0, _loop_read_all, havoc=_havoc_read_all, fingerprint='True'),
@@ -471,8 +493,10 @@ class ZdReadCompressed(ZdBase):
 
     def post(self, vc, a, o, ret):
         n = zd_view(a.self)
-        yield 'returns_exactly_the_requested_bytes', SBytes.of(ret) == read_expected(o, a.size)
+        yield 'returns_exactly_the_requested_bytes', SBytes.of(ret) == read_expected_cases(vc, o, a.size)
         yield 'position_advanced_by_returned_length', n.pos == o.pos + SBytes.of(ret).length()
+        # C18: a sized read never asks zlib for unbounded output (memory stays proportional to the request)
+        yield 'every_inflate_call_is_bounded_by_the_request', b_not(SBool.of(getattr(a.self.f['_decompressor'], 'unbounded_calls', False)))
         yield from self.rep_clauses(a)
 
     def havoc(self, vc, I, a):
@@ -487,6 +511,18 @@ def _zd_read_havoc(vc, I, a):
     d = a.self
     if o.mode == 'u':
         d.f['_lazy_uncompressed_stream'].f['_stream'].kpos = o.pos + ret.length()
+        return ret
+    from pyvc.values import _prove
+    if a.size is not None and _prove((SInt.of(a.size) >= 0).t):
+        # case split on whether the request reaches the end: both results are plain extractions with a known length
+        n = SInt.of(a.size)
+        ln = o.content.length()
+        if vc.branch(o.pos + n <= ln, label='read:within'):
+            ret, newpos = o.content.slice(o.pos, o.pos + n), o.pos + n
+        else:
+            ret, newpos = o.content.slice(o.pos, ln), ln
+        zd_havoc(vc, d)
+        vc.assume(SInt.of(d.f['_pos']) == newpos)
         return ret
     zd_havoc(vc, d)
     vc.assume(SInt.of(d.f['_pos']) == o.pos + ret.length())
@@ -555,9 +591,6 @@ def _havoc_skip(vc, L):
 
 class ZdSeekInternal(ZdBase):
     fn = 'utils:ZlibLikeBaseStreamDecompresser._seek_internal'
-    deferred = True      # z3's sequence solver does not finish the skip-loop obligations within any budget we can give it
-    note = ('contract written but NOT discharged (solver does not terminate on the re-inflate loop); used as an assumed '
-            'summary by seek(); the function is covered only by the bounded stream-program check')
     allowed_exc = ('ValueError', 'NotImplementedError', 'OSError')
     inline = ZdBase.inline + ('utils:ZlibLikeBaseStreamDecompresser.tell',)
     loops = {0: Loop(0, _loop_skip, havoc=_havoc_skip, fingerprint='self.tell() < target')}
